@@ -12,7 +12,11 @@ Proof.
   destruct (d =? 0) eqn:E0.
   - destruct c; reflexivity.
   - cbv zeta. cbn [w_rdy r_rdy r_data level w_level r_level].
-    destruct (w_en i), (r_en i), (lvl c =? d), (lvl c =? 0), (d =? 2 ^ range_width d);
+    f_equal. f_equal.
+    all: try (destruct (d =? 2 ^ range_width d); reflexivity).
+    all: try (rewrite (andb_comm (w_en i)); reflexivity).
+    (* nothing is left for the source as it stands; semantically neutral rewrites of one field end here *)
+    all: destruct (w_en i), (r_en i), (lvl c =? d), (lvl c =? 0), (d =? 2 ^ range_width d);
       cbn [andb negb orb]; reflexivity.
 Qed.
 
@@ -28,6 +32,8 @@ Proof.
       destruct s as [[p c l r] rd rr bl]; cbn [inner rdata rrdy blevel produce consume lvl rows].
       destruct (w_en i), (r_en i), (bl =? 0), (bl =? 1); cbn [andb negb orb]; reflexivity.
     + cbv zeta. cbn [w_rdy r_rdy r_data level w_level r_level].
-      destruct (w_en i), (r_en i), (rrdy s), (lvl (inner s) =? d - 1), (lvl (inner s) =? 0),
+      f_equal. f_equal. f_equal.
+      all: try (destruct (d - 1 =? 2 ^ range_width (d - 1)); reflexivity).
+      all: destruct (w_en i), (r_en i), (rrdy s), (lvl (inner s) =? d - 1), (lvl (inner s) =? 0),
         (d - 1 =? 2 ^ range_width (d - 1)); cbn [andb negb orb]; reflexivity.
 Qed.
